@@ -1,9 +1,203 @@
+import CoupeModel.Model.Fm
 import CoupeModel.Driver.Util
 
-namespace Coupe.Driver.C07
-open Coupe.Driver
+/-!
+op: `fm <wt:i|f> <max_imbalance: none|f64 bits hex> <max_bad> <max_passes: none|N>
+        <max_moves: none|N> <rows> {<deg> {<nbr> <w>}} <m> <ids…> <l> <weights…>
+        [=> <the implementation's canonical line>]`
+out: `ok <cap> | <ids> | <moves_per_pass> | <rewinded_moves_per_pass>` | `ok-empty`
+     | `lenmismatch` | `bionly` | `panic <class>` | `skip search-budget`
 
-/-- (stub; not built yet) -/
-def handle (_toks : List String) : String := "bad-op"
+The canonical run (`ch = 0`) is printed when no tie was met (exact comparison).
+When a tie was met and the canonical line differs from the implementation's
+line, a bounded depth-first search over the choice function looks for a choice
+sequence whose run prints the implementation's line (membership).
+-/
+
+namespace Coupe.Driver.C07
+open Coupe.Fm Coupe.Driver
+
+structure Case where
+  f64w : Bool
+  mi : Option Nat
+  prm : Params
+  g : Graph
+  p : List Nat
+  ws : List Int
+
+def parseOptNat (s : String) : Option (Option Nat) :=
+  if s == "none" then some none else (parseNat? s).map some
+
+def parseOptHex (s : String) : Option (Option Nat) :=
+  if s == "none" then some none else (parseHex? s).map some
+
+def parseRow : Nat → List String → Option (Row × List String)
+  | 0, rest => some ([], rest)
+  | d + 1, u :: w :: rest => do
+    let u ← parseNat? u
+    let w ← parseInt? w
+    let (r, rest) ← parseRow d rest
+    pure ((u, w) :: r, rest)
+  | _, _ => none
+
+def parseRows : Nat → List String → Option (Graph × List String)
+  | 0, rest => some ([], rest)
+  | n + 1, d :: rest => do
+    let d ← parseNat? d
+    let (r, rest) ← parseRow d rest
+    let (g, rest) ← parseRows n rest
+    pure (r :: g, rest)
+  | _, _ => none
+
+def parseCase (toks : List String) : Option (Case × List String) :=
+  match toks with
+  | "fm" :: wt :: mi :: mb :: mp :: mm :: n :: rest => do
+    let f64w ← if wt == "f" then some true else if wt == "i" then some false else none
+    let mi ← parseOptHex mi
+    let mb ← parseNat? mb
+    let mp ← parseOptNat mp
+    let mm ← parseOptNat mm
+    let n ← parseNat? n
+    let (g, rest) ← parseRows n rest
+    match rest with
+    | m :: rest =>
+      let m ← parseNat? m
+      let (p, rest) ← takeParsed parseNat? m rest
+      match rest with
+      | l :: rest =>
+        let l ← parseNat? l
+        let (ws, rest) ← takeParsed parseInt? l rest
+        -- sprs invariant: column indices < number of rows (square matrix)
+        if g.any (fun r => r.any (fun e => decide (g.length ≤ e.1))) then none else
+        pure ({ f64w, mi, prm := { maxPasses := mp, maxMoves := mm, maxBad := mb, dbg := true },
+                g, p, ws }, rest)
+      | [] => none
+    | [] => none
+  | _ => none
+
+def big : Int := 4611686018427387904 -- 2^62
+
+/-- `W::from_f64(ideal + max_imbalance * ideal).unwrap()` as an integer
+threshold for the test `max_part_weight < target` on integer targets:
+`i64`: truncation (`None` → panic outside the `i64` range / NaN);
+`f64`: the comparison is on reals, `x < t ↔ ⌊x⌋ < t` for integer `t`
+(NaN: never smaller). Outer `none` = the `unwrap` panics. -/
+def convCap (f64w : Bool) (total : Int) (miBits : Nat) : Option Int :=
+  let ideal := Float.ofInt total / 2.0
+  let x := ideal + Float.ofBits (UInt64.ofNat miBits) * ideal
+  if f64w then
+    if x.isNaN then some big
+    else if x ≥ 4611686018427387904.0 then some big
+    else if x ≤ -4611686018427387904.0 then some (-big)
+    else some x.floor.toInt64.toInt
+  else
+    if x.isNaN then none
+    else if x < -9223372036854775808.0 || x ≥ 9223372036854775808.0 then none
+    else some x.toInt64.toInt
+
+def joinL (l : List Nat) : String := if l.isEmpty then "-" else joinNats l
+
+def abortClass : Abort → String
+  | .fuel => "abort fuel"
+  | .capacity => "panic capacity overflow"
+  | .bucketIndex => "panic index out of bounds"
+  | .assertCut => "panic assertion"
+  | .rewindRange => "panic rewind"
+
+def fmt (cap : Int) : Outcome → String
+  | .ok r =>
+    if r.part.isEmpty then "ok-empty" else
+    "ok " ++ toString cap ++ " | " ++ joinL r.part ++ " | " ++ joinL r.moves ++ " | " ++ joinL r.rewound
+  | .lenMismatch => "lenmismatch"
+  | .biOnly => "bionly"
+  | .abort a => abortClass a
+
+abbrev Tbl := List ((Nat × Nat) × Nat)
+
+def runWith (c : Case) (capOpt : Option Int) (tbl : Tbl) : Outcome :=
+  run (fun i k => (tbl.lookup (i, k)).getD 0) c.prm capOpt c.g c.ws c.p
+
+/-- Positions `(pass, move, branching factor)` of a run in execution order. -/
+def positions (logs : List (List Nat)) : List (Nat × Nat × Nat) :=
+  (logs.zipIdx.map (fun (l, i) => l.zipIdx.map (fun (b, k) => (i, k, b)))).flatten
+
+/-- First pass whose metadata differs from the implementation's (or is missing on
+one side); choices of later passes cannot repair it. -/
+def cutoff : Nat → List Nat → List Nat → List Nat → List Nat → Nat
+  | i, m :: ms, r :: rs, m' :: ms', r' :: rs' =>
+    if m = m' ∧ r = r' then cutoff (i + 1) ms rs ms' rs' else i
+  | i, _, _, _, _ => i
+
+inductive Search where
+  | found | exhausted | budget
+
+partial def search (c : Case) (capOpt : Option Int) (cap : Int) (target : String)
+    (im ir : List Nat) : List (Tbl × Nat) → Nat → Search
+  | [], _ => .exhausted
+  | (tbl, frm) :: stack, budget =>
+    if budget = 0 then .budget else
+    let o := runWith c capOpt tbl
+    if fmt cap o == target then .found else
+    match o with
+    | .ok r =>
+      let pos := positions r.logs
+      let full := r.moves == im && r.rewound == ir
+      let cut := if full then r.moves.length else cutoff 0 r.moves r.rewound im ir
+      let kids : List (Tbl × Nat) :=
+        (pos.zipIdx.filter (fun (x, idx) => decide (frm ≤ idx) && decide (1 < x.2.2) && decide (x.1 ≤ cut))).flatMap
+          (fun (x, idx) => (List.range (x.2.2 - 1)).map (fun a => (tbl ++ [((x.1, x.2.1), a + 1)], idx + 1)))
+      search c capOpt cap target im ir (kids.reverse ++ stack) (budget - 1)
+    | _ => search c capOpt cap target im ir stack (budget - 1)
+
+def splitBars (toks : List String) : List (List String) :=
+  toks.foldr (fun t acc =>
+    if t == "|" then [] :: acc else
+    match acc with
+    | [] => [[t]]
+    | a :: as => (t :: a) :: as) [[]]
+
+def searchBudget : Nat := 4000
+
+def handle (toks : List String) : String :=
+  match parseCase toks with
+  | none => "bad-op"
+  | some (c, rest) =>
+    let total := load c.ws c.p 0 + load c.ws c.p 1
+    -- outer none: the conversion panics
+    let capOpt : Option (Option Int) :=
+      match c.mi with
+      | none => some none
+      | some bits => (convCap c.f64w total bits).map some
+    let capArg : Option Int := match capOpt with
+      | some x => x
+      | none => some 0
+    let cap := capOf capArg c.ws c.p
+    let o := runWith c capArg []
+    let early := match o with
+      | .lenMismatch => true
+      | .biOnly => true
+      | .ok r => r.part.isEmpty
+      | _ => false
+    if capOpt.isNone && !early then "panic unwrap" else
+    let line := fmt cap o
+    match o with
+    | .ok r =>
+      if !tieSensitive r then line else
+      match rest with
+      | "=>" :: impl =>
+        let target := " ".intercalate impl
+        if target == line then line else
+        match splitBars impl with
+        | [_, _, ms, rs] =>
+          match (ms.filter (· ≠ "-")).mapM parseNat?, (rs.filter (· ≠ "-")).mapM parseNat? with
+          | some im, some ir =>
+            match search c capArg cap target im ir [([], 0)] searchBudget with
+            | .found => target
+            | .exhausted => line
+            | .budget => "skip search-budget"
+          | _, _ => line
+        | _ => line
+      | _ => line
+    | _ => line
 
 end Coupe.Driver.C07
